@@ -243,6 +243,37 @@ func init() {
 				getVal := w.MethodObj("storage/tuple", "Tuple", "GetValue")
 				dep := DependsOn(st.Val, IsCallTo(getVal))
 				_, isConst := constOf(st.Val)
+				// running maximum: some branch compares the accumulator with the candidate (or the value goes through the max builtin)
+				isMaxShape := false
+				for v := range BackSlice(st.Val).Vals {
+					phi, ok := v.(*ssa.Phi)
+					if !ok || !types.Identical(phi.Type(), st.Val.Type()) {
+						continue
+					}
+					// the accumulator: a phi of the counter's type that starts from a constant
+					hasConst := false
+					for _, e := range phi.Edges {
+						if _, isC := e.(*ssa.Const); isC {
+							hasConst = true
+						}
+					}
+					if !hasConst {
+						continue
+					}
+					for _, bb := range rec.Blocks {
+						if i := blockIf(bb); i != nil && DependsOn(i.Cond, func(x ssa.Value) bool { return x == ssa.Value(phi) }) && DependsOn(i.Cond, IsCallTo(getVal)) {
+							isMaxShape = true
+						}
+					}
+				}
+				for v := range BackSlice(st.Val).Vals {
+					if c, ok := v.(*ssa.Call); ok {
+						if bi, ok := c.Call.Value.(*ssa.Builtin); ok && bi.Name() == "max" {
+							isMaxShape = true
+						}
+					}
+				}
+				r.Check(isMaxShape, "RecoveryCatalogFromCatalogPage:nextTableID-is-a-running-maximum", "the restored counter exceeds every stored table id whatever the order of the catalog rows (accumulator compared with each candidate)", "nextTableID at "+w.InstrPos(in)+" is taken from catalog rows without comparing against the value accumulated so far: it ends as (some row's oid)+1, which is below an id already in use when the rows are not met in creation order")
 				r.Check(dep && !isConst, "RecoveryCatalogFromCatalogPage:nextTableID-from-catalog", "the next table id is derived from the table ids stored in the catalog", "nextTableID is initialised at "+w.InstrPos(in)+" with a value that does not depend on the catalog rows (constant): the first CREATE TABLE after a restart re-uses an existing table id")
 			}
 		}
